@@ -156,6 +156,61 @@ def fingerprints():
             out['%s:%s' % (rel, name)] = hashlib.sha256(ast.dump(node, annotate_fields=False, include_attributes=False).encode()).hexdigest()[:16]
     return out, missing
 
+# ---- inventory of state written after construction (C10): every attribute of `self` that a method other than a constructor assigns, deletes, subscripts
+# for writing or mutates through a container method, and every module-level name written from inside a function, in the files on the parse path
+STATE_FILES = ['lark/lexer.py', 'lark/lark.py', 'lark/parser_frontends.py', 'lark/parsers/lalr_parser.py', 'lark/parsers/lalr_parser_state.py',
+               'lark/parsers/lalr_interactive_parser.py', 'lark/parsers/earley.py', 'lark/parsers/xearley.py', 'lark/parsers/earley_common.py', 'lark/parse_tree_builder.py',
+               'lark/indenter.py', 'lark/tree_matcher.py', 'lark/reconstruct.py', 'lark/visitors.py', 'lark/common.py', 'lark/grammar.py', 'lark/parsers/cyk.py',
+               'lark/parsers/earley_forest.py', 'lark/utils.py', 'lark/tree.py', 'lark/exceptions.py']
+_CTOR = {'__init__', '__post_init__', '__new__', '__setstate__', '__deepcopy__', '_deserialize', 'deserialize', '__copy__'}
+_MUT = {'append', 'add', 'update', 'setdefault', 'pop', 'clear', 'extend', 'insert', 'remove', 'discard', 'popitem', 'appendleft', 'sort', 'reverse'}
+
+def state_inventory():
+    out = {}
+    for f in STATE_FILES:
+        try:
+            t = _parse(f)
+        except ExtractError:
+            continue
+        mod = f.split('/')[-1]
+        modnames = {tg.id for n in t.body if isinstance(n, ast.Assign) for tg in n.targets if isinstance(tg, ast.Name)}
+        def is_self_attr(y):
+            return isinstance(y, ast.Attribute) and isinstance(y.value, ast.Name) and y.value.id == 'self'
+        for cls in [n for n in ast.walk(t) if isinstance(n, ast.ClassDef)]:
+            for fn in [n for n in cls.body if isinstance(n, ast.FunctionDef)]:
+                if fn.name in _CTOR:
+                    continue
+                for n in ast.walk(fn):
+                    tg = []
+                    if isinstance(n, ast.Assign): tg = n.targets
+                    elif isinstance(n, (ast.AugAssign, ast.AnnAssign)): tg = [n.target]
+                    elif isinstance(n, ast.Delete): tg = n.targets
+                    for x in tg:
+                        for y in ast.walk(x):
+                            if is_self_attr(y) and isinstance(y.ctx, (ast.Store, ast.Del)):
+                                out.setdefault(mod + ':' + cls.name, set()).add(y.attr)
+                            if isinstance(y, ast.Subscript) and is_self_attr(y.value):
+                                out.setdefault(mod + ':' + cls.name, set()).add(y.value.attr + '[]')
+                    if isinstance(n, ast.Call) and isinstance(n.func, ast.Attribute) and n.func.attr in _MUT and is_self_attr(n.func.value):
+                        out.setdefault(mod + ':' + cls.name, set()).add(n.func.value.attr + '.' + n.func.attr)
+        for fn in [n for n in ast.walk(t) if isinstance(n, ast.FunctionDef)]:
+            for n in ast.walk(fn):
+                if isinstance(n, ast.Global):
+                    out.setdefault(mod + ':<module>', set()).update(n.names)
+                tg = []
+                if isinstance(n, ast.Assign): tg = n.targets
+                elif isinstance(n, ast.AugAssign): tg = [n.target]
+                for x in tg:
+                    if isinstance(x, ast.Subscript) and isinstance(x.value, ast.Name) and x.value.id in modnames:
+                        out.setdefault(mod + ':<module>', set()).add(x.value.id + '[]')
+                if isinstance(n, ast.Call) and isinstance(n.func, ast.Attribute) and n.func.attr in _MUT and isinstance(n.func.value, ast.Name) and n.func.value.id in modnames:
+                    out.setdefault(mod + ':<module>', set()).add(n.func.value.id + '.' + n.func.attr)
+            for d in fn.decorator_list:
+                sd = ast.unparse(d)
+                if 'cache' in sd.lower() or 'memo' in sd.lower():
+                    out.setdefault(mod + ':<module>', set()).add('@' + sd + ' ' + fn.name)
+    return {k: sorted(v) for k, v in sorted(out.items())}
+
 def find_rule_size(tree):
     """load_grammar.FindRuleSize: which aggregate each method applies, and when a symbol counts"""
     out = []
@@ -194,6 +249,7 @@ def extract():
         'optionDefaults': option_defaults(lk),
         'cacheKeyShape': cache_key_shape(lk),
         'findRuleSize': find_rule_size(lg),
+        'stateInventory': state_inventory(),
     }
     return vals
 
@@ -216,6 +272,9 @@ def render(vals):
     L.append('def cacheKeyShape : List String := ' + lean_str_list(vals['cacheKeyShape']))
     L.append('/-- lark/load_grammar.py FindRuleSize: (method or condition, expression) -/')
     L.append('def findRuleSize : List (String × String) := ' + keylist(vals['findRuleSize']))
+    L.append('/-- attributes of `self` written by methods other than constructors (assignment, deletion, subscript store, container mutators) and module-level names')
+    L.append('    written from inside functions, per class, in the files on the parse path -/')
+    L.append('def stateInventory : List (String × List String) := [' + ', '.join('(%s, %s)' % (json.dumps(c), lean_str_list(f)) for c, f in sorted(vals['stateInventory'].items())) + ']')
     L.append('end Extracted')
     return '\n'.join(L) + '\n'
 
